@@ -854,6 +854,11 @@ Definition sign_tap_script2 (p : pset2) (k : nat) (s : tsig) : pset2 * rstat :=
   | Some i =>
       if is_final2 i then (p, StOk)
       else if nonempty (q_tapkeysig i) then (p, StErr)
+      (* fix cc83b33: the checks the parser applies, and no duplicate (key, leaf) pair *)
+      else if negb ((lenN (ts_pk s) =? 32) && (lenN (ts_leaf s) =? 32)) then (p, StErr)
+      else if negb ((lenN (ts_sig s) =? 64) || (lenN (ts_sig s) =? 65)) then (p, StErr)
+      else if existsb (fun x => bytes_eqb (ts_pk x) (ts_pk s) && bytes_eqb (ts_leaf x) (ts_leaf s)) (q_tapsigs i)
+           then (p, StErr)
       else let p' := with_in2 p k (fun i => set_tapsigs (q_tapsigs i ++ [s]) i) in
            if sanity2 p' then (p', StOk) else (p, StErr)
   end.
@@ -1039,20 +1044,10 @@ Definition extract2 (p : pset2) : oc tx :=
 
 (* serialize/parse hop with its failure class: ToBase64 refuses an insane input, the parser
    ends with SanityCheck; on failure the caller keeps the packet it had *)
-(* PInput.serialize sorts the live packet's PartialSigs slice in place, so a hop that fails
-   (an insane input stops the serializer, a signed unsigned-tx stops the parser) still leaves
-   the inputs written so far sorted *)
-Definition sort_in0 (i : pin) : pin := if is_final0 i then i else set_sigs (sort_pk (pi_sigs i)) i.
-Fixpoint ser_side_effect (l : list pin) : list pin * bool :=
-  match l with
-  | [] => ([], true)
-  | i :: r => if sane_in0 i
-              then (let (r', ok) := ser_side_effect r in (sort_in0 i :: r', ok))
-              else (l, false)
-  end.
-Definition hop0_st (p : pset0) : pset0 * rstat :=
-  let (ins', ok) := ser_side_effect (p0_ins p) in
-  if ok && validate_unsigned (p0_tx p) then (hop0 p, StOk) else (mk_pset0 (p0_tx p) ins', StErr).
+(* the serializer sorts a copy of PartialSigs (fix 7d6e201): the parsed packet has them in
+   pubkey order, the live packet keeps insertion order, and a hop that fails (an insane input
+   stops the serializer, a signed unsigned-tx stops the parser) changes nothing *)
+Definition hop0_st (p : pset0) : pset0 * rstat := if sanity0 p then (hop0 p, StOk) else (p, StErr).
 
 (* v2 hop on the packets the harness sends through it (no issuance / peg-in / locktime
    extras): empty byte strings are not written, so they come back as nil; the witness utxo
